@@ -89,7 +89,7 @@ def validate(trace_lines, where, tag, module="Trace_Machine", cfg="Trace_Machine
                     d = common._decode_print(line.rstrip("\n"))
                     if d and isinstance(d[1], dict):
                         k = starts.index(d[1]["line"])
-                        trivial[part[k][0]["i"]] = d[1]["why"]
+                        trivial[part[k][0]["i"]] = d[1]["why"] + (": " + d[1]["detail"] if d[1].get("detail") else "")
             if r["accepted"]:
                 accepted += len(part)
                 continue
@@ -108,9 +108,19 @@ def validate(trace_lines, where, tag, module="Trace_Machine", cfg="Trace_Machine
 
 def run_random(rep, prop, tier, seed, layouts, count=None, gen_args=None, tag=None):
     tag = tag or ("%s-rnd" % prop)
-    count = count or {"quick": 240, "thorough": 3000}[tier]
+    count = count or {"quick": 240, "thorough": 4000}[tier]
+    cfg = "Trace_Machine.cfg" if tier == "quick" else "Trace_Machine_thorough.cfg"
     path = os.path.join(common.WORK, "%s-%d-gen.ndjson" % (tag, os.getpid()))
-    common.pvh(["gen", count, seed, path] + (gen_args or []), exe_name="pvh_machine")
+    # thorough: three quarters of the programs of the usual size, one quarter twice as large (longer loops, deeper fuel)
+    if gen_args is None and tier == "thorough":
+        big = count // 4
+        path2 = path + ".big"
+        common.pvh(["gen", count - big, seed, path], exe_name="pvh_machine")
+        common.pvh(["gen", big, seed + 1, path2, 2], exe_name="pvh_machine")
+        with open(path, "a") as f:
+            f.write(open(path2).read())
+    else:
+        common.pvh(["gen", count, seed, path] + (gen_args or []), exe_name="pvh_machine")
     programs = common.read_ndjson(path)
     results = mc.run_programs(programs, layouts, seed, tag)
     lines, where, direct = build_trace(programs, results)
@@ -127,7 +137,7 @@ def run_random(rep, prop, tier, seed, layouts, count=None, gen_args=None, tag=No
         rep.violation("random-" + what, "%s :: %s" % (what, sig),
                       {"problem": "a generated well-formed program is %s" % what, "result": x,
                        "source": results[i]["source"], "program": programs[i]})
-    accepted, trivial, rejections, states = validate(lines, where, tag)
+    accepted, trivial, rejections, states = validate(lines, where, tag, cfg=cfg)
     for i, block, offset in rejections:
         ev = block[offset] if offset < len(block) else None
         rep.violation("random-output", "program seed=%d index=%d :: output" % (seed, i),
@@ -175,7 +185,7 @@ def run_random(rep, prop, tier, seed, layouts, count=None, gen_args=None, tag=No
                 break
         p = os.path.join(common.WORK, "%s-%d-selftest.ndjson" % (tag, os.getpid()))
         common.write_ndjson(p, corrupted)
-        r = common.tlc_traces("Trace_Machine", "Trace_Machine.cfg", [p])[0]
+        r = common.tlc_traces("Trace_Machine", cfg, [p])[0]
         selftests["corrupted_print_rejected"] = not r["accepted"]
     samples = []
     for i in range(min(2, len(programs))):
